@@ -106,6 +106,7 @@ public:
     std::chrono::seconds pingInterval;
     std::unordered_map<std::string, std::string> headers; // custom upgrade headers
     TlsMode tlsMode;
+    std::size_t maxMessageSize; // largest frame / reassembled message accepted (bytes)
 
     Options()
       : autoReconnect(false)
@@ -113,6 +114,7 @@ public:
       , maxReconnectDelay(30000)
       , pingInterval(30)
       , tlsMode(TlsMode::None)
+      , maxMessageSize(16 * 1024 * 1024) // 16MB, same default as WebSocketServer
     {
     }
   };
@@ -559,6 +561,7 @@ private:
       _fragmentOpcode = WsOpcode::CONTINUATION;
     }
     _upgradeComplete.store(false);
+    _receiveFailed.store(false);
     _closeEchoed.store(false); // re-arm the one-shot CLOSE echo for this connection
     {
       std::lock_guard<std::mutex> lock(_sendMutex);
@@ -810,6 +813,10 @@ private:
     }
 
     // Step 3: Parse WebSocket frames (outside lock)
+    if (_receiveFailed.load())
+    {
+      return; // connection already failed (1002/1009): discard, never buffer
+    }
     std::size_t offset = 0;
     while (offset < localBuffer.size())
     {
@@ -817,11 +824,31 @@ private:
                             localBuffer.size() - offset);
       std::size_t consumed = 0;
       auto frame = WebSocketFrame::parse(view, consumed);
-      if (!frame) break;
+      if (!frame)
+      {
+        // Incomplete - or a frame that can never be accepted. Tell them apart so a
+        // hostile header cannot make the client buffer without bound.
+        auto hs = WebSocketFrame::inspectHeader(view, _options.maxMessageSize);
+        if (hs == WsHeaderStatus::PROTOCOL_ERROR)
+        {
+          failReceive(1002, "Protocol error", "Malformed frame header");
+          return;
+        }
+        if (hs == WsHeaderStatus::TOO_LARGE)
+        {
+          failReceive(1009, "Message Too Big", "Frame header declares more than maxMessageSize");
+          return;
+        }
+        break;
+      }
       offset += consumed;
 
       // handleFrame fires callbacks — must be outside lock
       handleFrame(*frame);
+      if (_receiveFailed.load())
+      {
+        return;
+      }
     }
 
     // Step 4: Put unconsumed remainder back under lock
@@ -833,6 +860,27 @@ private:
       remainder.insert(remainder.end(), _buffer.begin(), _buffer.end());
       _buffer = std::move(remainder);
     }
+  }
+
+  /// \brief Fail the WebSocket connection from the receive path (RFC 6455
+  /// §7.1.7): send our CLOSE, stop accepting input (so nothing is buffered behind
+  /// a frame that can never be accepted), and report the error. The TCP close
+  /// follows from the peer's reaction to the CLOSE or from disconnect().
+  void failReceive(std::uint16_t code, const std::string& reason, const std::string& what)
+  {
+    _receiveFailed.store(true);
+    {
+      std::lock_guard<std::mutex> lock(_dataMutex);
+      _buffer.clear();
+      _fragmentBuffer.clear();
+      _fragmentOpcode = WsOpcode::CONTINUATION;
+    }
+    if (!_closeEchoed.exchange(true))
+    {
+      sendClose(code, reason);
+    }
+    setState(WebSocketState::CLOSED);
+    if (_onError) _onError(what);
   }
 
   void handleFrame(const WebSocketFrame& frame)
@@ -897,6 +945,7 @@ private:
     WsOpcode opcode = WsOpcode::CONTINUATION;
     std::vector<std::uint8_t> payload;
     bool deliver = false;
+    bool tooLarge = false;
     {
       std::lock_guard<std::mutex> lock(_dataMutex);
       if (isStart)
@@ -910,7 +959,11 @@ private:
                                frame.payload.begin(), frame.payload.end());
       }
 
-      if (frame.fin)
+      if (_fragmentBuffer.size() > _options.maxMessageSize)
+      {
+        tooLarge = true; // endless fragments must not accumulate without bound
+      }
+      else if (frame.fin)
       {
         opcode = _fragmentOpcode;
         payload = std::move(_fragmentBuffer);
@@ -918,6 +971,12 @@ private:
         _fragmentOpcode = WsOpcode::CONTINUATION;
         deliver = true;
       }
+    }
+
+    if (tooLarge)
+    {
+      failReceive(1009, "Message Too Big", "Message exceeded maxMessageSize");
+      return;
     }
 
     if (deliver)
@@ -1251,6 +1310,9 @@ private:
   mutable std::mutex _dataMutex; // LEAF lock — independent of _transportMutex/rc->m.
   std::vector<std::uint8_t> _buffer;
   std::atomic<bool> _upgradeComplete{false};
+  // Set by failReceive(): the connection was failed from the receive path; further
+  // input is discarded instead of buffered. Re-armed per connection in doConnect().
+  std::atomic<bool> _receiveFailed{false};
   // One-shot CLOSE-echo gate (M-2): set via exchange(true) the first time a peer
   // CLOSE is echoed, re-armed in doConnect() per connection. Replaces the dead
   // _state==CLOSING guard (CLOSING is never stored — it is a reserved state).
